@@ -343,9 +343,15 @@ def _fault(c):
     return None
 
 
+def _overflow(c):
+    if "overflow" in c:
+        return "encoder wrote %s bytes into a buffer of varintRLEMaxSize(count)=%s bytes" % (c.get("n"), c.get("max"))
+    return None
+
+
 def o_rle_enc_C02(args, c):
-    if _fault(c):
-        return _fault(c)
+    if _fault(c) or _overflow(c):
+        return _fault(c) or _overflow(c)
     count = seg_count(args[0])
     if int(c["dn"]) != count:
         return "decoding the encoder's output with the original count returned %s elements, expected %d" % (c["dn"], count)
@@ -373,8 +379,8 @@ def o_dict_enc_C02(args, c):
 
 
 def o_rle_enc_C03(args, c):
-    if _fault(c):
-        return _fault(c)
+    if _fault(c) or _overflow(c):
+        return _fault(c) or _overflow(c)
     count = seg_count(args[0])
     n, mx, size = int(c["n"]), int(c["max"]), int(c["size"])
     if c["guard"] != "ok":
@@ -476,8 +482,8 @@ def o_dict_dec(args, c):
 
 
 def o_rle_enc_C16(args, c):
-    if _fault(c):
-        return _fault(c)
+    if _fault(c) or _overflow(c):
+        return _fault(c) or _overflow(c)
     vals = expand(args[0])
     count, hdr = len(vals), args[1] != "0"
     runs = len(max_runs(vals))
